@@ -356,6 +356,8 @@ class C12(PropBase):
                     if x != y:
                         return "run %s: accepted transactions differ: impl=%s model=%s" % (lab, str(x)[:500], str(y)[:500])
                 return "run %s: number of accepted transactions differs" % lab
+            if not case.get("probe"):
+                continue
             pa, pb = i["out"].get("probe", {}), m["out"].get("probe", {})
             if pa.get("r") != "OK" or pb.get("r") != "OK":
                 return "run %s: probe output status impl=%s model=%s" % (lab, pa.get("r"), pb.get("r"))
@@ -403,8 +405,9 @@ class C12(PropBase):
             return None
 
         # every ancestor of every posted account can be looked up by reports (both modes)
-        pidx = {a: k for k, a in enumerate(case["probe"]["accounts"])}
-        cidx = {c: k for k, c in enumerate(case["probe"]["commodities"])}
+        probe = case.get("probe") or {"accounts": [], "commodities": []}
+        pidx = {a: k for k, a in enumerate(probe["accounts"])}
+        cidx = {c: k for k, c in enumerate(probe["commodities"])}
         for lab, r in runs.items():
             if r.get("r") != "OK" or r["out"].get("probe", {}).get("r") != "OK" or r["out"]["txns"].get("r") != "OK":
                 continue
